@@ -38,6 +38,17 @@ CHECKS = {
         technique="TLA+ model (TLC exhaustive) + model-generated scenarios replayed on the code + TLC trace monitor",
         design_ref="DESIGN.md section 5 C08",
     ),
+    "C06": dict(
+        level="model_checking",
+        text="Search.tla transcribes Find/binarySearch/linearSearch and the writer's boundary-order rule; TLC checks the "
+             "never-miss requirement for every index of <=3/<=4 pages over 4 values and every probe. The same universe is "
+             "then realised by the real writer (int32, truncated byte-array incl. 0xFF prefixes, double columns) and the "
+             "real Search/Find results are judged against the real index and real page contents by FindMon.tla in TLC.",
+        note="Universe bounded to <=4 pages, 4 distinct values, pages summarised by their lo/hi values. Only "
+             "file-backed column indexes are probed.",
+        technique="TLA+ transcription checked exhaustively by TLC + exhaustive replay of the universe on the code + TLC trace monitor",
+        design_ref="DESIGN.md section 5 C06",
+    ),
 }
 
 NOT_YET = "check not built yet in this round (planned; see DESIGN.md section 9.3)"
